@@ -299,7 +299,7 @@ func run() int {
 		if ur.QUnknown > 0 {
 			ue.Incomplete = append(ue.Incomplete, fmt.Sprintf("%d solver queries returned unknown/error", ur.QUnknown))
 		}
-		if len(ur.Covers) == 0 {
+		if len(ur.Covers) == 0 && len(ur.Violations) == 0 {
 			ue.Incomplete = append(ue.Incomplete, "vacuous: no reachability witness (vpCover) reached")
 		}
 		if n := ur.Ends["wedge"]; n > 0 && !strings.Contains(name, "Wedge") {
